@@ -63,8 +63,8 @@ PLAN = {
         "thorough": [S("hook-default")],
     },
     "C15": {
-        "quick": [S("hook-strict")],
-        "thorough": [S("hook-strict"), S("s-strict-nosimd", tag="nosimd"), S("s-strict-dec-half", tag="half"), S("s-strict-dec-quarter", tag="quarter"), S("s-strict-dec-min", tag="min")],
+        "quick": [S("hook-strict"), S("s-strict-embedded", tag="embedded", only="generated")],
+        "thorough": [S("hook-strict"), S("s-strict-nosimd", tag="nosimd"), S("s-strict-dec-half", tag="half"), S("s-strict-dec-quarter", tag="quarter"), S("s-strict-dec-min", tag="min"), S("s-strict-embedded", tag="embedded")],
     },
     "C16": {
         "quick": [S("serde-plain"), S("serde-strict", tag="strict"), S("serde-buffered", tag="buffered"), S("serde-buffered-strict", tag="buffered-strict")],
@@ -253,5 +253,14 @@ OBLIGATIONS = {
                   "strict-parser,easy-functions,serde", "alloc,serde,strict-parser", "unsafe,easy-functions,opt-embedded-default"]
     ],
 }
+
+import itertools as _it
+NOSTD_CHECK = ["cargo", "check", "--offline", "--manifest-path", "/repo/fast-tlsh/Cargo.toml", "--no-default-features"]
+_base = ["easy-functions", "serde-buffered", "strict-parser", "unsafe", "simd", "alloc"]
+for _k in range(2, len(_base) + 1):
+    for _sub in _it.combinations(_base, _k):
+        OBLIGATIONS["C18"].append({"name": "no-std check " + "+".join(_sub), "cmd": NOSTD_CHECK + ["--features", ",".join(_sub)]})
+OBLIGATIONS["C18"].append({"name": "no-std check serde+unsafe", "cmd": NOSTD_CHECK + ["--features", "serde,unsafe"]})
+OBLIGATIONS["C18"].append({"name": "no-std check serde+strict", "cmd": NOSTD_CHECK + ["--features", "serde,strict-parser"]})
 
 NOT_APPLICABLE = {}
